@@ -298,3 +298,118 @@ Proof.
     injection H as <-. do 5 eexists. split; [reflexivity|].
     apply orb_false_iff in E0 as [E0 _]. apply N.eqb_neq in E0. lia.
 Qed.
+
+(** ** the text fallback while a signature is being typed (exact answer, one-line shape) *)
+Lemma trim_start_ws ws rest c :
+  forallb is_ws ws = true -> is_ws c = false -> trim_start (ws ++ c :: rest) = c :: rest.
+Proof.
+  induction ws as [|w ws IH]; intros Hw Hc; cbn [app trim_start]; [now rewrite Hc|].
+  cbn [forallb] in Hw. apply andb_prop in Hw as [H1 H2]. rewrite H1. now apply IH.
+Qed.
+Lemma trim_end_keep a c b : is_ws c = false -> trim_end (a ++ c :: b) = a ++ c :: trim_end b.
+Proof.
+  intros Hc. unfold trim_end. rewrite rev_app_distr. cbn [rev]. rewrite <- app_assoc. cbn [app].
+  generalize (rev b) as rb. intros rb.
+  induction rb as [|x rb IH]; cbn [app trim_start].
+  - rewrite Hc. cbn [rev]. now rewrite rev_involutive.
+  - destruct (is_ws x) eqn:Ex; [exact IH|].
+    cbn [rev]. rewrite rev_app_distr. cbn [rev]. rewrite rev_involutive, <- !app_assoc. reflexivity.
+Qed.
+
+Definition no_parens (t : text) : bool := forallb (fun c => negb ((c =? 40) || (c =? 41))) t.
+
+Lemma scan_line_no_parens b st t : no_parens t = true -> scan_line b st t = st.
+Proof.
+  unfold scan_line. revert st. induction t as [|c t IH]; intros st H; [reflexivity|].
+  cbn [no_parens forallb] in H. apply andb_prop in H as [Hc Ht]. apply negb_true_iff in Hc. apply orb_false_iff in Hc as [H40 H41].
+  cbn [fold_left]. rewrite H40, H41. now apply IH.
+Qed.
+Lemma scan_line_app b st a t : scan_line b st (a ++ t) = scan_line b (scan_line b st a) t.
+Proof. unfold scan_line. apply fold_left_app. Qed.
+
+Lemma usefixtures_scan_none fixed : forall n up below,
+  (forall ln, In ln up -> Text.find s_usefixtures ln = None) -> usefixtures_scan fixed up below n = None.
+Proof.
+  induction n as [|n IH]; intros up below H; [destruct up; reflexivity|].
+  destruct up as [|line up]; [reflexivity|]. cbn [usefixtures_scan].
+  rewrite (H line (or_introl eq_refl)). apply IH. intros ln Hl. apply H. now right.
+Qed.
+
+Lemma take_ident_app name rest :
+  forallb ident_char name = true -> (match rest with c :: _ => ident_char c | [] => false end) = false ->
+  take_ident (name ++ rest) = name.
+Proof.
+  intros Hn Hr. unfold take_ident. induction name as [|c name IH]; cbn [app].
+  - destruct rest as [|c r]; [reflexivity|]. now rewrite Hr.
+  - cbn [forallb] in Hn. apply andb_prop in Hn as [Hc Hn]. rewrite Hc. f_equal. now apply IH.
+Qed.
+
+Lemma tprefix_app_self p r : tprefix p (p ++ r) = true.
+Proof. induction p as [|x p IH]; [destruct r; reflexivity|]. cbn. now rewrite N.eqb_refl, IH. Qed.
+Lemma strip_prefix_app p r : strip_prefix p (p ++ r) = Some r.
+Proof.
+  unfold strip_prefix. rewrite tprefix_app_self. f_equal.
+  induction p as [|x p IH]; [reflexivity|]. cbn [length app skipn]. exact IH.
+Qed.
+
+(** While `def test_x(a, b` is being typed on the last line of a document that does not parse —
+    any indentation, anything above that does not mention usefixtures( — the fallback answers
+    with the signature context of exactly that function: its name, the line, whether a
+    fixture decorator stands above, the parameters typed so far and the decorator's scope. *)
+Theorem typed_signature_context (content : text) (above : list text) (indent name ptext line : text) :
+  line = indent ++ s_def ++ name ++ 40 :: ptext ->
+  text_lines content = above ++ [line] ->
+  (forall ln, In ln (above ++ [line]) -> Text.find s_usefixtures ln = None) ->
+  forallb is_ws indent = true ->
+  name <> [] -> forallb ident_char name = true -> tprefix s_test name = true ->
+  no_parens indent = true -> no_parens ptext = true ->
+  text_ctx_with true false content (len above + 1)
+  = Some (CSig (utf8_encode name) (len above + 1)
+               (has_fixture_decorator_above (rev above))
+               (declared_from_text [line])
+               (if has_fixture_decorator_above (rev above)
+                then Some (match scope_from_text (rev above) with Some s => s | None => 0 end) else None)).
+Proof.
+  intros Hline Hls Hu Hind Hne Hid Htest Hnpi Hnpp. unfold text_ctx_with. rewrite Hls.
+  match goal with |- (if ?c then _ else _) = _ => destruct c eqn:E0 end.
+  { exfalso. apply orb_prop in E0 as [E0|E0]; [apply N.eqb_eq in E0; lia|].
+    apply N.ltb_lt in E0. unfold len in E0. rewrite app_length in E0. cbn [length] in E0. lia. }
+  clear E0.
+  assert (Hto : N.to_nat (len above + 1) = S (length above)) by (unfold len; lia).
+  rewrite Hto. replace (S (length above)) with (length (above ++ [line])) by (rewrite app_length; cbn; lia).
+  rewrite firstn_all, rev_app_distr. cbn [rev app].
+  rewrite usefixtures_scan_none by (intros ln Hl; apply Hu; apply in_app_iff; destruct Hl as [<-|Hl]; [right; now left|left; now apply in_rev]).
+  cbn [andb].
+  (* the def line is the cursor line *)
+  assert (Htrim : trim line = s_def ++ name ++ 40 :: trim_end ptext).
+  { unfold trim. rewrite Hline. change (s_def ++ name ++ 40 :: ptext) with (100 :: ([101; 102; 32] ++ name ++ 40 :: ptext)).
+    rewrite (trim_start_ws indent _ 100 Hind eq_refl).
+    change (100 :: [101; 102; 32] ++ name ++ 40 :: ptext) with ((s_def ++ name) ++ 40 :: ptext).
+    rewrite <- app_assoc. rewrite (app_assoc s_def name). rewrite trim_end_keep by reflexivity. now rewrite <- app_assoc. }
+  cbn [find_def_up]. rewrite Htrim. rewrite tprefix_app_self. cbn [orb].
+  (* not an async def; the name *)
+  assert (Ha : strip_prefix s_async_def (s_def ++ name ++ 40 :: trim_end ptext) = None) by reflexivity.
+  rewrite Ha, strip_prefix_app.
+  rewrite take_ident_app by (try exact Hid; reflexivity).
+  destruct name as [|n0 name']; [contradiction|]. set (name := n0 :: name') in *.
+  rewrite Htest. cbn [orb negb].
+  replace (len above + 1 - 1) with (len above) by lia.
+  replace (N.to_nat (len above)) with (length above) by (unfold len; lia).
+  rewrite firstn_app, firstn_all, Nat.sub_diag. cbn [firstn]. rewrite app_nil_r.
+  replace (N.to_nat (len above - len above + 1)) with 1%nat by lia.
+  rewrite skipn_app, skipn_all, Nat.sub_diag. cbn [skipn app firstn].
+  (* the parenthesis scan: one unclosed '(' *)
+  assert (Hscan : scan_lines [line] (mk_pscan 0 false false) = mk_pscan 1 true false).
+  { cbn [scan_lines]. rewrite Hline, !scan_line_app.
+    rewrite (scan_line_no_parens true _ indent Hnpi).
+    rewrite (scan_line_no_parens true _ s_def eq_refl).
+    rewrite (scan_line_no_parens true _ name).
+    - change (40 :: ptext) with ([40] ++ ptext). rewrite scan_line_app.
+      rewrite (scan_line_no_parens true _ ptext Hnpp). reflexivity.
+    - unfold no_parens. clear -Hid. induction name as [|c nm IH]; [reflexivity|].
+      cbn [forallb] in *. apply andb_prop in Hid as [Hc Hn]. rewrite (IH Hn), andb_true_r.
+      apply negb_true_iff. apply orb_false_iff.
+      split; apply N.eqb_neq; intros ->; discriminate Hc. }
+  rewrite Hscan. cbn [ps_open ps_depth ps_closed andb negb]. cbn [Z.ltb Z.compare].
+  reflexivity.
+Qed.
